@@ -282,7 +282,7 @@ def _run_step(case):
         ok = ~near
         skipped += int(near.sum())
         for v in (0.0, 2.0, -2.0):
-            datas = [('zero', np.zeros((nq, nr))), ('dense', dense)]
+            datas = [('zero', np.zeros((nq, nr))), ('dense', dense)] + ([('tiny', 1e-11 * dense)] if v == 2.0 else [])      # the step is affine in f
             if dt in (1.0,) and v == 0.0 and case['tier'] == 'thorough':
                 for a, b in itertools.product(range(nq), range(nr)):
                     e = np.zeros((nq, nr))
@@ -330,7 +330,7 @@ def _run_step(case):
                             rb0 = refspline.row_float(Sr, b, 0)
                             want[i, j] = ra0 @ Cf @ rb0
                             scale[i, j] = abs(refspline.row_float(Sq, a % tp, 1) @ Cf @ rb0) + abs(ra0 @ Cf @ refspline.row_float(Sr, b, 1))
-                vt = 1e-11 * max(1.0, np.abs(f).max()) * Sq.cond_inf() * Sr.cond_inf() + (ftol * scale if not case['explicit'] else 1e-11 * scale)
+                vt = 1e-11 * max(1e-300, np.abs(f).max(), np.abs(want).max()) * Sq.cond_inf() * Sr.cond_inf() + (ftol * scale if not case['explicit'] else 1e-11 * scale)
                 err = np.abs(g - want)
                 bad = ok & ~(err <= vt)          # NaN counts as wrong
                 if ok.any():
